@@ -662,7 +662,7 @@ Section LexLines.
       eapply ET; eauto. intros. eapply lstart_line; eauto.
     - destruct (c =? 124); [inversion H; subst; repeat split; auto; discriminate|].
       eapply ET; eauto. intros. eapply lstart_line; eauto.
-    - inversion H; subst. repeat split; auto. intros X. congruence.
+    - inversion H; subst. repeat split; auto; intros X; congruence.
   Qed.
 
   Lemma newlines_cons : forall c cs, newlines (c :: cs) = newlines cs + (if c =? 10 then 1 else 0).
